@@ -383,5 +383,12 @@ pub fn run(seed: u64, tier: u32, which: &str) -> Cx {
             }
         }
     });
+    if which != "c14" {
+        // tombstoning truly parallel to a publisher and readers (own multi-thread runtime)
+        let n = if tier == 0 { 25 } else { 200 };
+        crate::sched::c20_parallel::<W>(&mut cx, n, true);
+        crate::sched::c20_parallel::<W>(&mut cx, n, false);
+        crate::sched::c20_parallel::<E>(&mut cx, n / 2, true);
+    }
     cx
 }
